@@ -2,7 +2,7 @@
    record of bound pods) and their preservation by every operation. *)
 From Coq Require Import List ZArith Bool Arith Lia Permutation.
 From Verif Require Import C07.Model C07.Spec C07.Proofs_Res C07.Proofs_Ledger C07.Proofs_View
-  C07.Proofs_Alloc C07.Proofs_Allocate.
+  C07.Proofs_Alloc C07.Proofs_Allocate C07.Proofs_Desig C07.Proofs_AllocateR.
 Import ListNotations.
 Open Scope Z_scope.
 
@@ -319,11 +319,11 @@ Qed.
 Lemma group_allocs_length al : length (group_allocs al) = 3%nat.
 Proof. reflexivity. Qed.
 
-Lemma allocate_done_wf kind ls infos rq da :
-  (forall t, lgood (ledger_of ls t)) -> raw_nonneg rq = true ->
-  allocate kind ls infos rq = ADone da -> dallocs_wf da = true.
+Lemma type_done_wf kind ls infos rq da :
+  lgood (ledger_of ls 0) -> raw_nonneg rq = true ->
+  (forall t, (t < 3)%nat -> type_done kind ls infos rq t (allocs_of da t)) -> dallocs_wf da = true.
 Proof.
-  intros G NN H. pose proof (allocate_done kind ls infos rq da G H) as D.
+  intros G NN D.
   unfold dallocs_wf. apply forallb_forall. intros t Ht.
   assert (Ht3 : (t < 3)%nat) by (cbn in Ht; lia).
   specialize (D t Ht3). unfold type_done in D.
@@ -335,8 +335,42 @@ Proof.
   rewrite H0, H1. cbn [andb]. destruct (Nat.eq_dec t 0) as [->|Hne].
   - rewrite (Gz eq_refl). cbn [oz]. apply Z.leb_le. apply quot_nonneg; [|lia].
     apply Z.leb_le in H1. apply Z.mul_nonneg_nonneg; auto.
-    apply (lg_tot _ (G 0%nat)).
+    apply (lg_tot _ G).
   - rewrite (Gn Hne). exact H2.
+Qed.
+Lemma allocate_done_wf kind ls infos rq da :
+  (forall t, lgood (ledger_of ls t)) -> raw_nonneg rq = true ->
+  allocate kind ls infos rq = ADone da -> dallocs_wf da = true.
+Proof.
+  intros G NN H. apply (type_done_wf kind ls infos rq); auto. now apply allocate_done.
+Qed.
+Lemma allocate_d_done_wf kind gkey ls infos rq dg da :
+  (forall t, lgood (ledger_of ls t)) -> raw_nonneg rq = true -> dallocs_wf dg = true ->
+  allocate_d kind gkey ls infos rq dg = ADone da -> dallocs_wf da = true.
+Proof.
+  intros G NN W H. destruct (allocate_d_done _ _ _ _ _ _ _ G W (fun _ => NN) H) as [dg' [_ [_ D]]].
+  apply (type_done_wf kind ls infos rq); auto. intros t Ht. now apply D.
+Qed.
+
+(* ------------------------------------------------------------------ open cycles, GPU entry *)
+Definition cycle_wf (c : cycle) : Prop :=
+  raw_nonneg (fst c) = true /\ match snd c with Some dg => dallocs_wf dg = true | None => True end.
+Definition pgood (s : state) : Prop := forall p c, lookup p (pend s) = Some c -> cycle_wf c.
+Definition kgood (s : state) : Prop :=
+  (is_nil (aset (lof s 0)) = false -> gkey s = true) /\ (has_gpu (infos s) = true -> gkey s = true).
+Lemma init_pgood : pgood init_state.
+Proof. intros p c H. discriminate. Qed.
+Lemma init_kgood : kgood init_state.
+Proof. split; discriminate. Qed.
+
+Lemma cycle_allocate_wf s c da :
+  ugood s -> wgood s -> cycle_wf c -> cycle_allocate s c = ADone da -> dallocs_wf da = true.
+Proof.
+  intros U W [NN Wd]. unfold cycle_allocate.
+  assert (G : forall t, lgood (ledger_of (ledgers s) t)) by (intros t; now apply good_lgood).
+  destruct (snd c) as [dg|].
+  - now apply allocate_d_done_wf.
+  - now apply allocate_done_wf.
 Qed.
 
 (* ------------------------------------------------------------------ every operation preserves the invariants *)
@@ -361,48 +395,57 @@ Proof.
   intros U L Ht. rewrite ledger_of_cache_update by auto. eapply cons_duprm; eauto. now apply U.
 Qed.
 
+Lemma with_pend_ugood s pd : ugood s -> ugood (with_pend s pd).
+Proof. intros U. apply (ugood_ext s); auto; try reflexivity. apply U. Qed.
+Lemma with_pend_wgood s pd : wgood s -> wgood (with_pend s pd).
+Proof. intros W. apply (wgood_ext s); auto; reflexivity. Qed.
+Lemma run_filter_fst s p c : exists pd, fst (run_filter s p c) = with_pend s pd.
+Proof. unfold run_filter. destruct (filter_verdict s c) as [code c']. eexists. reflexivity. Qed.
+
 Lemma step_good s o :
-  ugood s -> ugood (fst (step s o)) /\ (wgood s -> op_wf o = true -> wgood (fst (step s o))).
+  ugood s -> ugood (fst (step s o)) /\
+  (wgood s -> pgood s -> op_wf o = true -> wgood (fst (step s o))).
 Proof.
-  intros U. destruct o as [inv|p rq|p|p|p|p al| |p al|p|p rq vs|kind]; cbn [step].
+  intros U. destruct o as [inv|p rq|p|p|p|p al| |p al|p|p rq vs|kind|p rq hint al|p|p]; cbn [step].
   - (* refresh *) cbn [fst]. split.
     + eapply ugood_refresh; eauto; reflexivity.
-    + intros W Hwf. eapply wgood_refresh; eauto; try reflexivity. now apply healthy_nonneg.
+    + intros W _ Hwf. eapply wgood_refresh; eauto; try reflexivity. now apply healthy_nonneg.
   - (* schedule *)
     destruct (lookup p (envrec s)) as [x|] eqn:L; [cbn [fst]; auto|].
     destruct (allocate (nkind s) (ledgers s) (infos s) rq) as [|code|da] eqn:A; cbn [fst]; auto.
     split.
     + eapply ugood_add; eauto; reflexivity.
-    + intros W Hwf. eapply wgood_add; eauto; try reflexivity.
+    + intros W _ Hwf. eapply wgood_add; eauto; try reflexivity.
       eapply allocate_done_wf; eauto. intros t. now apply good_lgood.
   - (* unreserve *)
     destruct (lookup p (envrec s)) as [[da [|]]|] eqn:L; cbn [fst]; auto. split.
     + eapply ugood_rm; eauto; reflexivity.
-    + intros W _. eapply wgood_rm; eauto; reflexivity.
+    + intros W _ _. eapply wgood_rm; eauto; reflexivity.
   - (* pod add *)
     destruct (lookup p (envrec s)) as [[da b]|] eqn:L; cbn [fst]; auto. split.
     + apply (ugood_ext s); auto; try reflexivity.
       intros t Ht. unfold lof at 1. cbn [ledgers]. eapply dup_add_same; eauto.
-    + intros W _. apply (wgood_ext s); auto; try reflexivity.
+    + intros W _ _. apply (wgood_ext s); auto; try reflexivity.
       intros t Ht. unfold lof at 1. cbn [ledgers]. eapply dup_add_same; eauto.
   - (* pod delete *)
     destruct (lookup p (envrec s)) as [[da b]|] eqn:L; cbn [fst].
-    + split; [eapply ugood_rm; eauto; reflexivity|]. intros W _. eapply wgood_rm; eauto; reflexivity.
+    + split; [eapply ugood_rm; eauto; reflexivity|]. intros W _ _. eapply wgood_rm; eauto; reflexivity.
     + split.
       * apply (ugood_ext s); auto; try reflexivity.
         intros t Ht. unfold lof at 1. cbn [ledgers]. eapply dup_rm_same; eauto.
-      * intros W _. apply (wgood_ext s); auto; try reflexivity.
+      * intros W _ _. apply (wgood_ext s); auto; try reflexivity.
         intros t Ht. unfold lof at 1. cbn [ledgers]. eapply dup_rm_same; eauto.
   - (* foreign add *)
     destruct (lookup p (envrec s)) as [x|] eqn:L; cbn [fst]; auto. split.
     + eapply ugood_add; eauto; reflexivity.
-    + intros W Hwf. eapply wgood_add; eauto; reflexivity.
+    + intros W _ Hwf. eapply wgood_add; eauto; reflexivity.
   - (* device delete *) cbn [fst]. split.
     + eapply ugood_refresh; eauto; reflexivity.
-    + intros W _. eapply wgood_refresh; eauto; try reflexivity. apply unhealthy_nonneg.
+    + intros W _ _. eapply wgood_refresh; eauto; try reflexivity. apply unhealthy_nonneg.
   - (* pod update *)
     destruct (lookup p (envrec s)) as [[old b]|] eqn:L; cbn [fst]; auto.
-    set (s1 := mkState (cache_update false (ledgers s) p old) (infos s) (remove_key p (envrec s)) (envlast s) (nkind s)).
+    set (s1 := mkState (cache_update false (ledgers s) p old) (infos s) (remove_key p (envrec s)) (envlast s)
+                       (nkind s) (pend s) (gkey s)).
     assert (U1 : ugood s1) by (eapply ugood_rm; eauto; reflexivity).
     assert (L1 : lookup p (envrec s1) = None).
     { unfold s1. cbn [envrec]. rewrite lookup_remove_key. now rewrite Z.eqb_refl. }
@@ -411,14 +454,131 @@ Proof.
     { unfold s1, set_key. cbn [envrec]. now rewrite remove_key_idem. }
     split.
     + eapply (ugood_add s1); eauto; cbn [ledgers envrec]; auto.
-    + intros W Hwf. assert (W1 : wgood s1) by (apply (wgood_rm s s1 p old b); auto).
+    + intros W _ Hwf. assert (W1 : wgood s1) by (apply (wgood_rm s s1 p old b); auto).
       apply (wgood_add s1 _ p (group_allocs al) false); auto.
   - (* terminated *)
     destruct (lookup p (envrec s)) as [[da b]|] eqn:L; cbn [fst]; auto. split.
     + eapply ugood_rm; eauto; reflexivity.
-    + intros W _. eapply wgood_rm; eauto; reflexivity.
+    + intros W _ _. eapply wgood_rm; eauto; reflexivity.
   - (* preemption dry-run *) cbn [fst]. auto.
   - (* node labels *) cbn [fst]. split.
     + apply (ugood_ext s); auto; try reflexivity. apply U.
-    + intros W _. apply (wgood_ext s); auto; reflexivity.
+    + intros W _ _. apply (wgood_ext s); auto; reflexivity.
+  - (* cycle opened *)
+    destruct (lookup p (envrec s)) as [x|] eqn:L; [cbn [fst]; auto|].
+    destruct (run_filter_fst s p (rq, desig_of hint al)) as [pd ->]. split.
+    + now apply with_pend_ugood.
+    + intros W _ _. now apply with_pend_wgood.
+  - (* Filter again *)
+    destruct (lookup p (envrec s)) as [x|] eqn:L; [cbn [fst]; auto|].
+    destruct (lookup p (pend s)) as [c|] eqn:Lp; [|cbn [fst]; auto].
+    destruct (run_filter_fst s p c) as [pd ->]. split.
+    + now apply with_pend_ugood.
+    + intros W _ _. now apply with_pend_wgood.
+  - (* Reserve *)
+    destruct (lookup p (envrec s)) as [x|] eqn:L; [cbn [fst]; auto|].
+    destruct (lookup p (pend s)) as [c|] eqn:Lp; [|cbn [fst]; auto].
+    destruct (cycle_allocate s c) as [|code|da] eqn:A; cbn [fst].
+    + split; [now apply with_pend_ugood|]. intros W _ _. now apply with_pend_wgood.
+    + split; [now apply with_pend_ugood|]. intros W _ _. now apply with_pend_wgood.
+    + split.
+      * eapply ugood_add; eauto; reflexivity.
+      * intros W P _. eapply wgood_add; eauto; try reflexivity.
+        eapply cycle_allocate_wf; eauto.
+Qed.
+
+(* open cycles stay well-formed *)
+Lemma pgood_ext s s' : pend s' = pend s -> pgood s -> pgood s'.
+Proof. intros E P p c H. rewrite E in H. eauto. Qed.
+Lemma pgood_remove s s' p : pend s' = remove_key p (pend s) -> pgood s -> pgood s'.
+Proof.
+  intros E P q c H. rewrite E, lookup_remove_key in H. destruct (q =? p); [discriminate|eauto].
+Qed.
+Lemma filter_verdict_wf s c : wgood s -> cycle_wf c -> cycle_wf (snd (filter_verdict s c)).
+Proof.
+  intros W [NN Wd]. unfold filter_verdict. destruct c as [rq [dg|]]; cbn [fst snd] in *.
+  - split; auto. cbn [snd].
+    destruct (desig_fill (gkey s) (total (ledger_of (ledgers s) 0)) dg) as [dg'|] eqn:F; auto.
+    eapply desig_fill_wf; eauto. apply (wg_tot _ W 0%nat). lia.
+  - split; auto.
+Qed.
+Lemma run_filter_pgood s p c : wgood s -> pgood s -> cycle_wf c -> pgood (fst (run_filter s p c)).
+Proof.
+  intros W P Wc. pose proof (filter_verdict_wf s c W Wc) as Wc'.
+  unfold run_filter. destruct (filter_verdict s c) as [code c']. cbn [snd fst] in *.
+  intros q c0 H. cbn [with_pend pend] in H. destruct (code =? 0).
+  - rewrite lookup_set_key in H. destruct (q =? p); [now injection H as <-|eauto].
+  - rewrite lookup_remove_key in H. destruct (q =? p); [discriminate|eauto].
+Qed.
+Lemma step_pend s o :
+  match o with
+  | OFilter _ _ _ _ | OFilterAgain _ | OReserve _ => True
+  | _ => pend (fst (step s o)) = pend s
+  end.
+Proof.
+  destruct o as [inv|p rq|p|p|p|p al| |p al|p|p rq vs|kind|p rq hint al|p|p]; cbn [step]; auto.
+  - destruct (lookup p (envrec s)); auto. destruct (allocate _ _ _ _); auto.
+  - destruct (lookup p (envrec s)) as [[da [|]]|]; auto.
+  - destruct (lookup p (envrec s)) as [[da b]|]; auto.
+  - destruct (lookup p (envrec s)) as [[da b]|]; auto.
+  - destruct (lookup p (envrec s)); auto.
+  - destruct (lookup p (envrec s)) as [[da b]|]; auto.
+  - destruct (lookup p (envrec s)) as [[da b]|]; auto.
+Qed.
+Lemma step_pgood s o : wgood s -> pgood s -> op_wf o = true -> pgood (fst (step s o)).
+Proof.
+  intros W P Hwf. pose proof (step_pend s o) as E.
+  destruct o as [inv|p rq|p|p|p|p al| |p al|p|p rq vs|kind|p rq hint al|p|p];
+    try (now apply (pgood_ext s)); cbn [step].
+  - destruct (lookup p (envrec s)) as [x|] eqn:L; [cbn [fst]; auto|].
+    apply run_filter_pgood; auto. cbn [op_wf] in Hwf. apply andb_prop in Hwf as [NN Wa].
+    split; auto. cbn [snd]. unfold desig_of. destruct (hint && negb (is_nil al)); auto.
+  - destruct (lookup p (envrec s)) as [x|] eqn:L; [cbn [fst]; auto|].
+    destruct (lookup p (pend s)) as [c|] eqn:Lp; [|cbn [fst]; auto].
+    apply run_filter_pgood; eauto.
+  - destruct (lookup p (envrec s)) as [x|] eqn:L; [cbn [fst]; auto|].
+    destruct (lookup p (pend s)) as [c|] eqn:Lp; [|cbn [fst]; auto].
+    destruct (cycle_allocate s c) as [|code|da]; cbn [fst]; eapply pgood_remove; eauto; reflexivity.
+Qed.
+
+(* the GPU entry of deviceTotal exists as soon as a GPU was listed or held *)
+Lemma aset_reset_total l tot : aset (ledger_reset_total l tot) = aset l.
+Proof. reflexivity. Qed.
+Lemma kgood_mk ls inf er el k pd g :
+  (is_nil (aset (ledger_of ls 0)) = false -> g = true) -> (has_gpu inf = true -> g = true) ->
+  kgood (mkState ls inf er el k pd g).
+Proof. intros H1 H2. split; assumption. Qed.
+Lemma step_kgood s o : kgood s -> kgood (fst (step s o)).
+Proof.
+  intros [K1 K2]. fold (lof s 0) in K1.
+  assert (Gk : forall ls, is_nil (aset (ledger_of ls 0)) = false -> gk s ls = true).
+  { intros ls H. unfold gk. rewrite H. apply orb_true_r. }
+  assert (Gm : forall ls, has_gpu (infos s) = true -> gk s ls = true).
+  { intros ls H. unfold gk. now rewrite (K2 H). }
+  assert (K0 : kgood s) by (split; assumption).
+  destruct o as [inv|p rq|p|p|p|p al| |p al|p|p rq vs|kind|p rq hint al|p|p]; cbn [step].
+  - cbn [fst]. apply kgood_mk.
+    + intros H. rewrite ledger_of_refresh, aset_reset_total in H by lia. now rewrite (K1 H).
+    + intros H. rewrite H. apply orb_true_r.
+  - destruct (lookup p (envrec s)); [exact K0|].
+    destruct (allocate _ _ _ _); cbn [fst]; try exact K0. apply kgood_mk; auto.
+  - destruct (lookup p (envrec s)) as [[da [|]]|]; cbn [fst forget]; try exact K0. apply kgood_mk; auto.
+  - destruct (lookup p (envrec s)) as [[da b]|]; cbn [fst]; try exact K0. apply kgood_mk; auto.
+  - destruct (lookup p (envrec s)) as [[da b]|]; cbn [fst forget]; apply kgood_mk; auto.
+  - destruct (lookup p (envrec s)); cbn [fst]; try exact K0. apply kgood_mk; auto.
+  - cbn [fst]. apply kgood_mk.
+    + intros H. rewrite ledger_of_refresh, aset_reset_total in H by lia. now rewrite (K1 H).
+    + intros H. now rewrite (K2 H).
+  - destruct (lookup p (envrec s)) as [[old b]|]; cbn [fst]; try exact K0. apply kgood_mk.
+    + intros H. rewrite H. apply orb_true_r.
+    + intros H. now rewrite (Gm _ H).
+  - destruct (lookup p (envrec s)) as [[da b]|]; cbn [fst forget]; try exact K0. apply kgood_mk; auto.
+  - cbn [fst]. exact K0.
+  - cbn [fst]. apply kgood_mk; auto.
+  - destruct (lookup p (envrec s)); [exact K0|].
+    destruct (run_filter_fst s p (rq, desig_of hint al)) as [pd ->]. apply kgood_mk; auto.
+  - destruct (lookup p (envrec s)); [exact K0|]. destruct (lookup p (pend s)) as [c|]; [|exact K0].
+    destruct (run_filter_fst s p c) as [pd ->]. apply kgood_mk; auto.
+  - destruct (lookup p (envrec s)); [exact K0|]. destruct (lookup p (pend s)) as [c|]; [|exact K0].
+    destruct (cycle_allocate s c); cbn [fst]; apply kgood_mk; auto.
 Qed.
